@@ -104,7 +104,7 @@ def month_start(y, m):
 def grid_rows(rng, res, n_periods, start, max_lag=4, partial=0.0, shape="triangle", flat=False, drop=0.0):
     """periods of `res` months from `start` (first of a month); evaluation dates at month ends,
     lags multiples of `res` after the period end; with probability `partial` also evaluation dates
-    INSIDE the period (negative lags)"""
+    INSIDE the period (negative lags), at month ends and on any other day of any month of the period"""
     rows = []
     for i in range(n_periods):
         if drop and n_periods > 1 and rng.random() < drop:
@@ -119,8 +119,17 @@ def grid_rows(rng, res, n_periods, start, max_lag=4, partial=0.0, shape="triangl
             lags = sorted(rng.sample(range(max_lag), rng.randrange(1, max_lag + 1)))
         evals = [gen.add_months_int(pe, k * res, end=True) for k in lags]
         if partial and rng.random() < partial:
-            inside = [gen.add_months_int(ps, j, end=True) for j in range(0, res - 1)]
-            evals = sorted(set(evals + rng.sample(inside, rng.randrange(1, min(3, len(inside)) + 1))))
+            # evaluation dates INSIDE the period: the month end of every month but the last, and ANY other day
+            # of EVERY month of the period (a mid-month evaluation date closes no sub-period of its own month:
+            # "months elapsed // resolution" and "sub-period end <= evaluation date" differ exactly there)
+            inside = []
+            for j in range(0, res):
+                first = gen.add_months_int(ps, j)
+                last = gen.add_months_int(ps, j, end=True)
+                if j < res - 1:
+                    inside.append(last)
+                inside.append(first + datetime.timedelta(days=rng.randrange(0, (last - first).days)))
+            evals = sorted(set(evals + rng.sample(inside, rng.randrange(1, min(4, len(inside)) + 1))))
         rows.append((ps, pe, evals))
     return rows
 
@@ -534,6 +543,9 @@ def run_disagg(ctx, n, reqs, post):
         ctx.count(f"disagg/{mode}")
         ctx.count(f"disagg/L={L},res={res}")
         ctx.count("disagg/weights=" + ("default" if weights is None else "dyadic"))
+        if any(c.evaluation_date < c.period_end and
+               (c.evaluation_date + datetime.timedelta(days=1)).day != 1 for c in tri.cells):
+            ctx.count("disagg/partially-observed-cell-with-mid-month-evaluation-date")
         ctx.count("disagg/" + ("exact" if exact else "tol"))
         ctx.count("disagg/result=" + ("ok" if "ok" in d else "err:" + d["err"]))
         ctx.case(digest=json.dumps([inp, res, req["weights"], sel], sort_keys=True),
@@ -567,8 +579,11 @@ def gen_policy(rng):
     mode = rng.choices(["ok", "ragged", "badorigin"], [0.86, 0.08, 0.06])[0]
     m0 = rng.choice([1, 4, 7, 10] * 3 + [2, 3, 6, 11])
     start = month_start(rng.randrange(1996, 2028), m0)
-    n_periods = rng.randrange(1, 9)
-    extra = rng.randrange(0, 4)
+    # long triangles (2.5-4 years of quarters): accident quarters that start more than a policy YEAR after the
+    # end of a policy year are still exposed to it when policies run longer than 12 months
+    long_tri = rng.random() < 0.3
+    n_periods = rng.randrange(10, 17) if long_tri else rng.randrange(1, 9)
+    extra = rng.randrange(0, 2 if long_tri else 4)
     n_slices = rng.choice([1, 1, 2])
     metas = slice_metas(rng, n_slices, vary_other=1.0, risk_basis=rng.choice(["Accident", "Accident", "Report"]))
     kind = rng.choice(["C", "U", "U", "I"])
@@ -582,7 +597,7 @@ def gen_policy(rng):
             ps = gen.add_months_int(start, 3 * i)
             pe = gen.add_months_int(ps, 2, end=True)
             lags = list(range(0, n_periods - i + extra))
-            keep = [k for k in lags[:-1] if rng.random() < 0.8] + [lags[-1]]
+            keep = [k for k in lags[:-1] if rng.random() < (0.25 if long_tri else 0.8)] + [lags[-1]]
             if mode == "ragged" and i == n_periods - 1 and n_periods > 1:
                 keep = keep[:-1] or [lags[-1] + 1]
             rows.append((ps, pe, [gen.add_months_int(pe, 3 * k, end=True) for k in keep]))
@@ -594,9 +609,9 @@ def gen_policy(rng):
     origin = D(2020, om, od)
     if mode == "badorigin":
         origin = rng.choice([D(2020, 2, 29), D(2020, 2, 29), D(2020, 1, 31), D(2020, 5, 31)])
-    plen = rng.choice([1, 3, 6, 12, 12, 12, 18, 24])
+    plen = rng.choice([18, 24, 36, 30, 12] if long_tri else [1, 3, 6, 12, 12, 12, 18, 24, 36])
     cont = rng.random() < 0.7
-    if mode == "ok" and rng.random() < 0.15:      # the function's own defaults (passed implicitly)
+    if mode == "ok" and not long_tri and rng.random() < 0.15:      # the function's own defaults (passed implicitly)
         plen, origin, cont = 12, D(2020, 1, 1), True
     return cells, plen, origin, cont, mode
 
@@ -633,6 +648,8 @@ def run_policy(ctx, n, reqs, post):
         post.append(("policyYear", req, d, TOL))
         ctx.count(f"policyYear/{mode}")
         ctx.count(f"policyYear/len={plen}")
+        if len(tri.periods) >= 10 and plen > 12:
+            ctx.count("policyYear/long-triangle(>=10 quarters),policy-length>12")
         ctx.count(f"policyYear/origin_month={origin.month},day={origin.day}")
         ctx.count("policyYear/result=" + ("ok" if "ok" in d else "err:" + d["err"]))
         ctx.case(digest=json.dumps([inp, plen, w_date(origin), cont], sort_keys=True),
@@ -787,9 +804,9 @@ if __name__ == "__main__":
         rule="four streams: (currency) 1-4 slices over {USD,EUR,GBP,CAD,'',None} x three cell classes x scalar/array "
              "values x dyadic/int rate tables incl. missing currency / missing rate; (disagg) semi-regular triangles with "
              "period length 3/6/12, every divisor sub-resolution (plus equal, non-divisor, larger), default or dyadic "
-             "weight vectors (plus invalid ones), field selections, evaluation dates inside the period (unobservable "
-             "sub-periods), off-grid gaps; (policyYear) quarterly accident triangles with flat right edge (plus ragged) x "
-             "12 origin months x origin days x policy lengths 1-24 x continuous or not; (premium) writing/earning "
+             "weight vectors (plus invalid ones), field selections, evaluation dates inside the period, at month ends and on any other day of any month (unobservable "
+             "sub-periods; mid-month dates close no sub-period of their own month), off-grid gaps; (policyYear) quarterly accident triangles with flat right edge (plus ragged) x "
+             "12 origin months x origin days x policy lengths 1-36 x continuous or not, 30 % of them long (10-16 quarters) with policy lengths 18/24/30/36 (quarters exposed to a policy year more than 12 months after its end); (premium) writing/earning "
              "patterns x resolutions x offsets. SEQUENCE stream (40 % of the cases of every stream): a priming call of "
              "the same function first (on another generated input, or on the SAME triangle object with another rate "
              "table / weights / fields / issuance mode / offset), derived accessors of the input read before and compared "
